@@ -156,7 +156,11 @@ def main():
         found = []
         # (i) the disagreeing cases themselves were already judged by the oracle in run();
         # (ii) fresh, larger search budget with other seeds
+        crashed = any(f.get("kind") == "harness-error" for f in ctx.failures)
+        t_search = time.time()
         for extra_seed in (args.seed + 1000003, args.seed + 2000003):
+            if crashed or time.time() - t_search > 240:
+                break      # a driver that crashed shows nothing more when re-run; keep the search bounded
             sctx = Ctx(pid, args.tier, extra_seed, search=True)
             if hasattr(P, "search"):
                 try:
